@@ -310,6 +310,32 @@ class UnhashFlavour(Flavour):
     def default_real_did(self, d):
         return "u_" + NAMES[d - 1]
 
+    # serialisation: a mapper pair for the dicts (lib_mappers = "the pair to use with save/load and to_dict_list")
+    @staticmethod
+    def _ser(node, data):
+        data["name"] = node.data["name"]
+        return data
+
+    @staticmethod
+    def _deser(parent, data):
+        return {"name": data["name"]}
+
+    lib_mappers = (_ser.__func__, _deser.__func__)
+
+    def data_index(self, obj):
+        r = self._rev.get(id(obj))
+        if r is not None and self._data[r] is obj:
+            return r
+        if isinstance(obj, dict) and set(obj) == {"name"} and obj["name"] in NAMES:   # rebuilt by load()
+            return NAMES.index(obj["name"]) + 1
+        return -1
+
+    def index_of_fields(self, name, rank):
+        return NAMES.index(name) + 1 if name in NAMES and rank is None else -1
+
+    def content_intact(self):
+        return all(o == {"name": NAMES[d - 1]} for d, o in self._data.items())
+
 
 class DWrapFlavour(Flavour):
     """DictWrapper data stored with the library's own mapper pair (DictWrapper.serialize_mapper / deserialize_mapper);
